@@ -1272,7 +1272,7 @@ Definition chain3_shape : tshape :=
               | _ => TFErr end).
 
 (* message of party [from] for round [rnd] of session 7 / protocol 9 *)
-Definition dmsg (from rnd : nat) (fp : N) (valid : bool) : msg := mkMsg 7 9 from None rnd true false 0 fp valid.
+Definition dmsg (from rnd : nat) (fp : N) (valid : bool) : msg := mkMsg 7 9 from None rnd true false 0 fp valid NoPanic.
 
 Ltac shape_cases r := destruct r as [|[|[|[|r]]]].
 
